@@ -15,6 +15,11 @@ class ClientIOFam(Family):
 
     def generate(self, tier, rng):
         quick = tier == "quick"
+        # a replica that catches up commits many blocks in one TryCommit: three events per block go through the one
+        # bounded event queue (capacities as wired in the repository: 100 in wiring/core.go and twins, 1000 in the worker)
+        lines = [f"longcommit {c} {k}" for c in (100, 1000, 5) for k in (1, 3, 4, 5, 20, 34, 35, 36, 37, 40, 60, 120, 250)]
+        lines += [f"longcommit {rng.choice((1, 2, 7, 10, 64, 100, 128, 1000))} {rng.randrange(1, 251)}" for _ in range(20 if quick else 400)]
+        yield ("catch-up-commits", lines)
         for k in range(400 if quick else 12000):
             nclients = rng.choice([1, 2, 3])
             maxseq = rng.choice([2, 3, 6])
